@@ -141,6 +141,8 @@ def rule_canon(ctx, R):
     fb = ctx.fb
     n = 0
     for body in sorted(fb.bodies.values(), key=lambda b: b.name):
+        if body.path in fb.helpers:
+            continue
         org = None
         for bi, blk in enumerate(body.blocks):
             if blk["cleanup"]:
